@@ -396,19 +396,9 @@ func (n *dagScanNode) dagBlockToNodeDoc(block *coreblock.Block) (core.Doc, error
 	schemaVersionId := block.Delta.GetSchemaVersionID()
 	n.commitSelect.DocumentMapping.SetFirstOfName(&commit, request.SchemaVersionIDFieldName, schemaVersionId)
 
-	cols, err := n.planner.db.GetCollections(
-		n.planner.ctx,
-		client.CollectionFetchOptions{
-			IncludeInactive: immutable.Some(true),
-			VersionID:       immutable.Some(schemaVersionId),
-		},
-	)
-	if err != nil {
-		return core.Doc{}, err
-	}
-	if len(cols) == 0 {
-		return core.Doc{}, client.NewErrCollectionNotFoundForCollectionVersion(schemaVersionId)
-	}
+	// The collection version that wrote the block is not needed to describe the commit, and it is not
+	// necessarily known locally: a commit received from a node on a newer schema version must not make
+	// the commit history of the document unreadable.
 
 	var fieldName any
 	if block.Delta.IsComposite() {
